@@ -127,6 +127,8 @@ class Analysis:
 
     def st(self, s, st, ctx):
         if st is None:
+            if s and s[0] != "nop":
+                self.has_dead_code = True  # a statement behind an unconditional Return/Break/Continue/exit
             return None
         k = s[0]
         if k == "store":
@@ -258,6 +260,7 @@ class Analysis:
         tracked = {d["id"] for d in r.get("vars", []) if d.get("kind", "sv") in track_kinds or (track_abi_main and d.get("kind") == "abi")}
         ctx = {"routine": "main", "tracked": tracked, "loop": None}
         self.called = set()
+        self.has_dead_code = False
         st = self.seq(r["main"], frozenset(), ctx)
         self.ex(r["final"], st, ctx)
         # only routines called from *live* code are compiled (a call in dead code after Return/Break/Continue emits nothing):
